@@ -129,7 +129,10 @@ class Runner:
                     # if it does the same alone in a fresh process; otherwise its fresh result counts and the event is
                     # reported in the evidence as unattributed.
                     confirmed = True
-                    for job2, st2, pl2 in run_pool(self._job, [job], 1, self.case_timeout, None, self.rlimit_as, lambda wid: self._init_worker(10000)):
+                    # once two such events have been confirmed the next ones are taken at face value: re-running every case
+                    # of a tree that hangs would multiply the wall-clock budget
+                    rerun = [job] if agg["extra"].get("confirmed_worker_stalls_or_deaths", 0) < 2 else []
+                    for job2, st2, pl2 in run_pool(self._job, rerun, 1, self.case_timeout, None, self.rlimit_as, lambda wid: self._init_worker(10000)):
                         if st2 == "ok":
                             confirmed = False
                             self._merge(agg, pl2)
@@ -144,6 +147,7 @@ class Runner:
                             harness_errors.append((i, pl2))
                     if not confirmed:
                         continue
+                    agg["extra"]["confirmed_worker_stalls_or_deaths"] = agg["extra"].get("confirmed_worker_stalls_or_deaths", 0) + 1
                     case = self.mod.gen_case(Rng(self.seed, self.prop, i), i, self.tier)
                     oracle = "wall_timeout_backstop" if status == "timeout" else "interpreter_died"
                     fp = {"oracle": oracle, "site": "case"}
@@ -382,6 +386,13 @@ def replay(mod, path):
         print("  digest=%s" % r.get("digest"))
         return 1
     if got:
+        unknown = [v for v in got if not any(fp_matches(e, v["fp"]) for e in known)]
+        if not unknown:
+            hit = next(e for e in known if fp_matches(e, got[0]["fp"]))
+            print("KNOWN-FINDING: property=%s %s [%s]" % (mod.PROPERTY, hit["description"], hit["id"]))
+            print("replay produces a listed finding (fingerprint differs from the recorded one); digest=%s" % r.get("digest"))
+            return 0
+        got = unknown
         print("replay produced a different violation: %s" % json.dumps(got[0]["fp"], sort_keys=True, default=str))
         print("VIOLATION property=%s replay=%s" % (mod.PROPERTY, path))
         return 1
